@@ -212,6 +212,7 @@ func (e *Engine) havocCall(st *State, fr *Frame, site ssa.Instruction, callee *s
 var knownPure = map[string]bool{
 	"google.golang.org/protobuf/proto.Marshal": true,
 	"golang.org/x/crypto/blake2b.NewXOF":       true,
+	"golang.org/x/crypto/blake2b.Sum256":       true,
 	"go.brendoncarroll.net/tai64.ParseN":       true,
 	"encoding/asn1.Marshal":                    true,
 	"(time.Duration).Milliseconds":             true,
